@@ -90,6 +90,29 @@ CHECKS.update({
              note=TB + "std::unordered_set iteration order enters as a parameter (oracle) read from the implementation run and validated (duplicate-free, same elements).",
              tech="Coq proof (fold-of-addEdge lemma, all enumeration orders) + differential correspondence on all small subsets", ref="DESIGN.md §6 C10"),
 })
+CHECKS.update({
+ 'C11': dict(text="Theorems C11_single_predecessor_search / C11_find_geodesics (Coq): for every well-formed adjacency structure and in-range source, the model of findVertexPredecessors "
+                  "(statement by statement: distance/parent/visited vectors, FIFO queue) yields hop minima over ALL walks (sentinel iff unreachable) and parents one hop closer along an edge; "
+                  "findGeodesics returns [source], [] or a walk with exactly the minimum number of hops. PARTIAL: findAllVertexPredecessors, findAllGeodesics and the FromVertex variants "
+                  "(full statements kept as definitions) are tied to /repo and to a brute-force spec (iterated successor sets, all walks of minimal length) by correspondence on every "
+                  "digraph on <=3 vertices, undirected on <=3-4, families with exponentially many shortest paths and random graphs, all source/destination pairs.",
+             note=TB + "The searches see a graph only through getOutNeighbours, so one model covers directed and undirected graphs; implementation-chosen values (which parent, which shortest "
+                  "path) are validated against the relation rather than fixed.",
+             tech="Coq proof (layered-queue BFS invariant; parent-chain reconstruction) + exhaustive small-graph correspondence with a brute-force oracle", ref="DESIGN.md §6 C11, App. A"),
+ 'C12': dict(text="Theorem C12_dijkstra_correct (Coq): for EVERY pop sequence in which each pop is a worklist member of minimum tentative distance and which empties the worklist - zero "
+                  "weights and cycles included - distances are the minimum walk weights (none iff unreachable), the source is its own predecessor, unreachable vertices have none, every "
+                  "other vertex v has an edge (p,v,w) with dist[v] = dist[p] + w, and at most 1+E pops happen; C12_progress: a legal pop always exists. Tie: the harness records the pop "
+                  "sequence of the real search on a counting graph type; the model replays it (rejecting any non-minimal pop) and compares distances exactly; the spec side uses Bellman-Ford "
+                  "and validates the returned predecessor vector.",
+             note=TB + "std::make_heap/pop_heap are not modelled: any legal choice is admitted. Exact arithmetic (weights k/4); rounding is outside the model.",
+             tech="Coq proof (label-correcting invariant + greedy lemma, choice-driven) + correspondence replaying the implementation's pop sequence", ref="DESIGN.md §6 C12, App. A"),
+ 'C19': dict(text="Theorems C19_single_predecessor_scans (<= V scans, fuel V suffices) and C19_dijkstra_scans (<= 1+E pops for any legal run) (Coq). PARTIAL: the bound for "
+                  "findAllVertexPredecessors is a recorded statement checked by correspondence: the getOutNeighbours calls of the three searches on a counting graph type are compared with "
+                  "the model counters and with V, V+E, V+E+1 on layered/grid families (exponentially many shortest paths), zero-weight cycles and random graphs. The exponential behaviour "
+                  "of the pinned commit is kept as a kernel-checked example (47 scans > V+E = 26 on 4 layers of width 2).",
+             note=TB + "Only neighbourhood scans are counted, as the property states; heap maintenance cost is outside it.",
+             tech="Coq proof (fuel = bound; potential argument for Dijkstra) + scan counting on instrumented graph types", ref="DESIGN.md §6 C19"),
+})
 NA = {'C20': "about the C++ type checker/linker accepting client programs (template instantiation, overload resolution, ODR): no executable Gallina model has a counterpart, so machine-checked proof cannot apply (DESIGN.md §6 C20)"}
 def main():
     props = [json.loads(l)['id'] for l in open(os.path.join(ROOT, 'properties.jsonl'))]
